@@ -63,6 +63,8 @@ def build(active_known=frozenset()):
     pack = Pack("C20", "Integer and ratio arithmetic is exact and quot/rem/mod obey their identities")
     pack.trust("fractions.Fraction keeps lowest terms with positive denominator (normal form); math.trunc/math.floor on Fraction are exact")
     pack.assume("float and Decimal arithmetic results are opaque: only the result *type* and exception class are derived for them")
+    pack.assume("machine arithmetic treated as mathematical: in mixed float/integer (or float/ratio) arithmetic the conversion of the exact operand to float is assumed not to "
+                "overflow (Python raises OverflowError for magnitudes of 2**1024 - 2**970 and more)")
 
     for fname, spec in OPS.items():
         # exact operands -------------------------------------------------------------
